@@ -27,8 +27,9 @@ One ROW PER CALL SITE of a callee that can deliver a status or that is defined i
    primitive write / seek / close and the obligation are Gallina (coq/ErrProp.v), evaluated by the kernel.
 
 The pairs (caller, callee) of ErrProp.known_unchecked (the hand list of statuses that are genuinely unchecked in the
-current code) are translated to ids and emitted as `exceptions` (pairs that name no row of the current table are
-emitted as `stale_exceptions`, which the obligation requires to be empty... no: which is reported, not required).
+current code) are translated to ids and emitted as `exceptions`; pairs that name no row of the current table are emitted
+as `stale_exceptions` (reported by the check, never required: repairing a listed pair in /repo breaks nothing).
+The functions of src/cgnslib.c and src/cgns_internals.c that call cgio_* are added with rows for those call sites only.
 """
 import bisect, hashlib, json, os, re, sys
 
@@ -40,7 +41,7 @@ ROOT = os.path.dirname(os.path.dirname(os.path.abspath(__file__)))
 FILES = ["adf/ADF_interface.c", "adf/ADF_internals.c", "cgns_io.c"]
 # the mid-level library: only the call sites of cgio_* are rows (the cg_* / cgi_* call graph above them is not modelled)
 FILES_MLL = ["cgnslib.c", "cgns_internals.c"]
-VERSION = "10"
+VERSION = "11"
 
 STATUS_PARAM_NAMES = {"error_return", "err", "error_return_input", "error_ret", "ierr"}
 # system calls (the primitives).  kind 'neg': < 0 is the error; 'count': -1 or a short count is the error
@@ -729,7 +730,20 @@ class Walker:
             errknown = self.own is not None and self.loc_err(st, self.own)
             self.finish(st, errknown, self.own, line)
             return
-        d = self.ev(ks[0], st)
+        e0 = ks[0]
+        while e0.get("kind") in ("ParenExpr", "ImplicitCastExpr") and kids(e0):
+            e0 = kids(e0)[0]
+        if e0.get("kind") == "ConditionalOperator":
+            # return c ? a : b   ==   if (c) return a; else return b;
+            c, a, b = kids(e0)
+            t, f = self.cond(c, st)
+            for br, x in ((t, a), (f, b)):
+                if br is not None and not br.dead:
+                    self.ret_value(self.ev(x, br), br, line)
+            return
+        self.ret_value(self.ev(ks[0], st), st, line)
+
+    def ret_value(self, d, st, line):
         if d[0] == "call":
             self.outcome(d[1], "Flow")
             self.finish(st, False, None, line)
@@ -940,7 +954,7 @@ def write_gen(repo="/repo", impl=None, force=False):
     for f in d["functions"]:
         for r in f["rows"]:
             cnt[r["cont"]] = cnt.get(r["cont"], 0) + 1
-    info = dict(files=FILES, functions=len(d["functions"]), rows=sum(len(f["rows"]) for f in d["functions"]), by_cont=cnt,
+    info = dict(files=FILES + FILES_MLL, functions=len(d["functions"]), rows=sum(len(f["rows"]) for f in d["functions"]), by_cont=cnt,
                 externs=len(ext), stale_exceptions=stale, gen_sha1=hashlib.sha1(txt.encode()).hexdigest(), cached=cached, src_sha1=h)
     d["fid"], d["ext"] = fid, ext
     return info, d
